@@ -25,7 +25,7 @@ Definition c_col : N := 58.
 Definition c_pct : N := 37.
 Definition c_plus : N := 43.
 Definition c_dot : N := 46.
-Definition c_at : N := 64.
+Definition ch_at : N := 64.
 
 (* ---------- small string tools ---------- *)
 
@@ -147,7 +147,7 @@ Inductive rres := ROk (u : surl) | RErr | RUnjudged.
 
 (* path bytes whose escaped form is the byte itself, '%' excluded (judged subset) *)
 Definition path_char (c : N) : bool :=
-  unreserved c || (c =? c_sl) || (c =? c_col) || (c =? c_at) || (c =? 36) || (c =? c_amp) ||
+  unreserved c || (c =? c_sl) || (c =? c_col) || (c =? ch_at) || (c =? 36) || (c =? c_amp) ||
   (c =? c_plus) || (c =? 44) || (c =? 59) || (c =? c_eq).
 
 (* query bytes kept verbatim: printable ASCII without '#' and blank *)
